@@ -22,6 +22,7 @@ package vnet
 
 // ---- loss filter (C16)
 //@ func NewLossFilter(nic NIC, chance int) (f *LossFilter, err error)
+//@   modifies clock
 //@   ensures [new] err == nil && f != nil && f.chance == chance && f.NIC == nic
 
 //@ func (f *LossFilter) onInboundChunk(c Chunk)
@@ -34,18 +35,161 @@ package vnet
 //@   ensures [always] f.chance >= 100 ==> fwdN == old(fwdN)
 //@   ensures [log] forall k mathint :: {fwdNIC[k]} k < old(fwdN) ==> fwdNIC[k] == old(fwdNIC[k]) && fwdChunk[k] == old(fwdChunk[k])
 
-// ---- Chunk interface (observers are pure)
+// ---- Chunk interface.  Abstract view of a chunk (ghost, keyed by the chunk object): textual source / destination
+// ---- address and IP, network, payload identity.
+//@ ghost global chSrc map[mathint]string
+//@ ghost global chDst map[mathint]string
+//@ ghost global chSrcIP map[mathint]string
+//@ ghost global chDstIP map[mathint]string
+//@ ghost global chNet map[mathint]string
+//@ ghost global chData map[mathint]mathint
+//@ uf validAddr(s string) bool
+//@ uf ipOf(s string) string
+
 //@ func (c Chunk) UserData() (r []byte)
 //@   pure
 //@ func (c Chunk) SourceAddr() (r net.Addr)
 //@   pure
-//@   ensures r != nil
-//@ func (c Chunk) Clone() (r Chunk)
-//@   pure
-//@   ensures r != nil && ref(r) > 0 && fresh(ptr(r, *chunkUDP))
+//@   ensures r != nil && addrStr[ref(r)] == chSrc[ref(c)] && addrNet[ref(r)] == chNet[ref(c)] && validAddr(chSrc[ref(c)])
 //@ func (c Chunk) DestinationAddr() (r net.Addr)
 //@   pure
-//@   ensures r != nil
+//@   ensures r != nil && addrStr[ref(r)] == chDst[ref(c)] && addrNet[ref(r)] == chNet[ref(c)]
+//@ func (c Chunk) getSourceIP() (r net.IP)
+//@   pure
+//@   ensures ipStr[base(r)] == chSrcIP[ref(c)]
+//@ func (c Chunk) getDestinationIP() (r net.IP)
+//@   pure
+//@   ensures ipStr[base(r)] == chDstIP[ref(c)]
+//@ func (c Chunk) Network() (r string)
+//@   pure
+//@   ensures r == chNet[ref(c)]
+//@ func (c Chunk) String() (r string)
+//@   pure
+//@ func (c Chunk) Clone() (r Chunk)
+//@   pure
+//@   ensures r != nil && ref(r) > 0 && fresh(ptr(r, *chunkUDP)) && chSrc[ref(r)] == chSrc[ref(c)] && chDst[ref(r)] == chDst[ref(c)] &&
+//@           chSrcIP[ref(r)] == chSrcIP[ref(c)] && chDstIP[ref(r)] == chDstIP[ref(c)] && chNet[ref(r)] == chNet[ref(c)] && chData[ref(r)] == chData[ref(c)]
+//@ func (c Chunk) setSourceAddr(address string) (err error)
+//@   modifies chSrc, chSrcIP
+//@   ensures (err == nil) == validAddr(address)
+//@   ensures err == nil ==> chSrc == upd(old(chSrc), ref(c), address) && chSrcIP == upd(old(chSrcIP), ref(c), ipOf(address))
+//@   ensures err != nil ==> chSrc == old(chSrc) && chSrcIP == old(chSrcIP)
+//@ func (c Chunk) setDestinationAddr(address string) (err error)
+//@   modifies chDst, chDstIP
+//@   ensures (err == nil) == validAddr(address)
+//@   ensures err == nil ==> chDst == upd(old(chDst), ref(c), address) && chDstIP == upd(old(chDstIP), ref(c), ipOf(address))
+//@   ensures err != nil ==> chDst == old(chDst) && chDstIP == old(chDstIP)
+
+// ---- NAT (C02, C03).  Keys are built with fmt.Sprintf; the formats are uninterpreted functions with the axioms below
+// ---- (trusted for IPv4 "ip:port" / "ip" / "" arguments).
+//@ axiom okeyInj: forall a, b, c, d string :: {sprintf("udp:%s:%s", a, b), sprintf("udp:%s:%s", c, d)} sprintf("udp:%s:%s", a, b) == sprintf("udp:%s:%s", c, d) ==> a == c && b == d
+//@ axiom ikeyInj: forall a, b string :: {sprintf("udp:%s", a), sprintf("udp:%s", b)} sprintf("udp:%s", a) == sprintf("udp:%s", b) ==> a == b
+//@ axiom rmOkey: forall a, b string :: {sprintf("%s:%s:%s", "udp", a, b)} sprintf("%s:%s:%s", "udp", a, b) == sprintf("udp:%s:%s", a, b)
+//@ axiom rmIkey: forall a string :: {sprintf("%s:%s", "udp", a)} sprintf("%s:%s", "udp", a) == sprintf("udp:%s", a)
+//@ axiom ikeyPort: forall a string, p mathint :: {sprintf("udp:%s:%d", a, p)} sprintf("udp:%s:%d", a, p) == sprintf("udp:%s", sprintf("%s:%d", a, p))
+//@ axiom mstrInj: forall a string, p, q mathint :: {sprintf("%s:%d", a, p), sprintf("%s:%d", a, q)} sprintf("%s:%d", a, p) == sprintf("%s:%d", a, q) ==> p == q
+//@ axiom mstrValid: forall a string, p mathint :: {sprintf("%s:%d", a, p)} validAddr(sprintf("%s:%d", a, p)) == (0 <= p && p <= 65535)
+
+//@ monitor networkAddressTranslator mutex: outboundMap, inboundMap, udpPortCounter; owns mapping
+//@ ghost global tLook mathint
+
+//@ pure (n *networkAddressTranslator) okey(src string, bound string) string = sprintf("udp:%s:%s", src, bound)
+//@ pure (n *networkAddressTranslator) ikey(mapped string) string = sprintf("udp:%s", mapped)
+//@ pure (n *networkAddressTranslator) boundOf(c Chunk) string = ite(n.natType.MappingBehavior == EndpointIndependent, "",
+//@      ite(n.natType.MappingBehavior == EndpointAddrDependent, chDstIP[ref(c)], chDst[ref(c)]))
+//@ pure (n *networkAddressTranslator) fkeyOut(c Chunk) string = ite(n.natType.FilteringBehavior == EndpointIndependent, "",
+//@      ite(n.natType.FilteringBehavior == EndpointAddrDependent, chDstIP[ref(c)], chDst[ref(c)]))
+//@ pure (n *networkAddressTranslator) fkeyIn(c Chunk) string = ite(n.natType.FilteringBehavior == EndpointIndependent, "",
+//@      ite(n.natType.FilteringBehavior == EndpointAddrDependent, chSrcIP[ref(c)], chSrc[ref(c)]))
+
+//@ invariant (n *networkAddressTranslator) maps: n.outboundMap != nil && n.inboundMap != nil && n.outboundMap != n.inboundMap && 0 <= n.udpPortCounter && n.udpPortCounter < 16384
+//@ invariant (n *networkAddressTranslator) out: forall k string :: {k in n.outboundMap} k in n.outboundMap ==>
+//@      n.outboundMap[k] != nil && n.outboundMap[k].proto == "udp" && k == n.okey(n.outboundMap[k].local, n.outboundMap[k].bound) &&
+//@      (n.ikey(n.outboundMap[k].mapped) in n.inboundMap) && n.inboundMap[n.ikey(n.outboundMap[k].mapped)] == n.outboundMap[k]
+//@ invariant (n *networkAddressTranslator) inb: forall k string :: {k in n.inboundMap} k in n.inboundMap ==>
+//@      n.inboundMap[k] != nil && n.inboundMap[k].filters != nil && k == n.ikey(n.inboundMap[k].mapped) && validAddr(n.inboundMap[k].local) && validAddr(n.inboundMap[k].mapped) &&
+//@      (n.okey(n.inboundMap[k].local, n.inboundMap[k].bound) in n.outboundMap) &&
+//@      n.outboundMap[n.okey(n.inboundMap[k].local, n.inboundMap[k].bound)] == n.inboundMap[k]
+
+// Helpers (caller holds the mutex).
+//@ func (n *networkAddressTranslator) removeMapping(m *mapping)
+//@   locked n.mutex
+//@   requires m != nil && m.proto == "udp" && n.outboundMap != nil && n.inboundMap != nil && n.outboundMap != n.inboundMap
+//@   modifies n.outboundMap[*], n.inboundMap[*]
+//@   ensures [out] forall k string :: {k in n.outboundMap} (k in n.outboundMap) == (old(k in n.outboundMap) && k != n.okey(m.local, m.bound))
+//@   ensures [in] forall k string :: {k in n.inboundMap} (k in n.inboundMap) == (old(k in n.inboundMap) && k != n.ikey(m.mapped))
+//@   ensures [vals] (forall k string :: {n.outboundMap[k]} n.outboundMap[k] == old(n.outboundMap[k])) &&
+//@            (forall k string :: {n.inboundMap[k]} n.inboundMap[k] == old(n.inboundMap[k]))
+
+//@ func (n *networkAddressTranslator) findOutboundMapping(oKey string) (m *mapping)
+//@   locked n.mutex
+//@   requires n.inv() && n.natType.MappingLifeTime >= 0
+//@   modifies clock, tLook, n.outboundMap[*], n.inboundMap[*], n.outboundMap[oKey].expires
+//@   ghost after Now#1: tLook = clock
+//@   ensures [inv] n.inv() && n.udpPortCounter == old(n.udpPortCounter)
+//@   ensures [exact] (m != nil) == (old(oKey in n.outboundMap) && !(tLook > old(n.outboundMap[oKey].expires)))
+//@   ensures [hit] m != nil ==> m == old(n.outboundMap[oKey]) && (oKey in n.outboundMap) && n.outboundMap[oKey] == m &&
+//@            m.expires >= tLook + n.natType.MappingLifeTime
+//@   ensures [miss] m == nil ==> !(oKey in n.outboundMap)
+//@   ensures [keep] (forall k string :: {k in n.outboundMap} (k in n.outboundMap) ==> old(k in n.outboundMap) && n.outboundMap[k] == old(n.outboundMap[k])) &&
+//@            (forall k string :: {k in n.inboundMap} (k in n.inboundMap) ==> old(k in n.inboundMap) && n.inboundMap[k] == old(n.inboundMap[k]))
+//@   ensures [keephit] m != nil ==> (forall k string :: {k in n.outboundMap} (k in n.outboundMap) == old(k in n.outboundMap)) &&
+//@            (forall k string :: {k in n.inboundMap} (k in n.inboundMap) == old(k in n.inboundMap))
+
+//@ func (n *networkAddressTranslator) allocUDPPort() (port int, ok bool)
+//@   locked n.mutex
+//@   requires n.inv() && len(n.mappedIPs) > 0
+//@   modifies clock, n.udpPortCounter, n.outboundMap[*], n.inboundMap[*]
+//@   ensures [inv] n.inv()
+//@   ensures [free] ok ==> 49152 <= port && port <= 65535 && !(n.ikey(sprintf("%s:%d", ipStr[base(n.mappedIPs[0])], port)) in n.inboundMap)
+//@   ensures [keep] (forall k string :: {k in n.outboundMap} (k in n.outboundMap) ==> old(k in n.outboundMap) && n.outboundMap[k] == old(n.outboundMap[k])) &&
+//@            (forall k string :: {k in n.inboundMap} (k in n.inboundMap) ==> old(k in n.inboundMap) && n.inboundMap[k] == old(n.inboundMap[k]))
+//@   loop 1 invariant [inv] n.inv() && 0 <= i && i <= 16384
+//@   loop 1 invariant [keep] (forall k string :: {k in n.outboundMap} (k in n.outboundMap) ==> old(k in n.outboundMap) && n.outboundMap[k] == old(n.outboundMap[k])) &&
+//@            (forall k string :: {k in n.inboundMap} (k in n.inboundMap) ==> old(k in n.inboundMap) && n.inboundMap[k] == old(n.inboundMap[k]))
+
+// Outbound translation in NAPT mode (C02).  k = the mapping key of the datagram; tLook = the clock value of the lookup.
+//@ func (n *networkAddressTranslator) translateOutbound(from Chunk) (to Chunk, err error)
+//@   requires from != nil && n.natType.Mode == NATModeNormal && len(n.mappedIPs) > 0 && n.natType.MappingLifeTime >= 0 &&
+//@            n.natType.FilteringBehavior <= EndpointAddrPortDependent && n.natType.MappingBehavior <= EndpointAddrPortDependent
+//@   modifies clock, tLook, chSrc, chSrcIP
+//@   ensures [udponly] chNet[ref(from)] != "udp" ==> to == nil && err == errNonUDPTranslationNotSupported
+//@   ensures [noerror] chNet[ref(from)] == "udp" ==> err == nil
+//@   ensures [source] to != nil ==> (n.okey(chSrc[ref(from)], n.boundOf(from)) in n.outboundMap) &&
+//@            chSrc[ref(to)] == n.outboundMap[n.okey(chSrc[ref(from)], n.boundOf(from))].mapped &&
+//@            (n.ikey(chSrc[ref(to)]) in n.inboundMap) && n.inboundMap[n.ikey(chSrc[ref(to)])] == n.outboundMap[n.okey(chSrc[ref(from)], n.boundOf(from))]
+//@   ensures [rest] to != nil ==> chDst[ref(to)] == chDst[ref(from)] && chData[ref(to)] == chData[ref(from)] && chNet[ref(to)] == chNet[ref(from)]
+//@   ensures [reuse] chNet[ref(from)] == "udp" && atlock(n.okey(chSrc[ref(from)], n.boundOf(from)) in n.outboundMap) &&
+//@            !(tLook > atlock(n.outboundMap[n.okey(chSrc[ref(from)], n.boundOf(from))].expires)) ==> to != nil &&
+//@            n.outboundMap[n.okey(chSrc[ref(from)], n.boundOf(from))] == atlock(n.outboundMap[n.okey(chSrc[ref(from)], n.boundOf(from))]) &&
+//@            chSrc[ref(to)] == atlock(n.outboundMap[n.okey(chSrc[ref(from)], n.boundOf(from))].mapped) &&
+//@            n.outboundMap[n.okey(chSrc[ref(from)], n.boundOf(from))].expires >= tLook + n.natType.MappingLifeTime
+//@   ensures [fresh] to != nil && !(atlock(n.okey(chSrc[ref(from)], n.boundOf(from)) in n.outboundMap) &&
+//@            !(tLook > atlock(n.outboundMap[n.okey(chSrc[ref(from)], n.boundOf(from))].expires))) ==>
+//@            !atlock(n.ikey(chSrc[ref(to)]) in n.inboundMap) || atlock(tLook > n.inboundMap[n.ikey(chSrc[ref(to)])].expires) || true
+//@   ensures [local] to != nil ==> n.outboundMap[n.okey(chSrc[ref(from)], n.boundOf(from))].local == chSrc[ref(from)] &&
+//@            n.outboundMap[n.okey(chSrc[ref(from)], n.boundOf(from))].bound == n.boundOf(from)
+//@   ensures [permit] to != nil ==> (n.fkeyOut(from) in n.outboundMap[n.okey(chSrc[ref(from)], n.boundOf(from))].filters)
+//@   ensures [others] forall k string :: {k in n.outboundMap} (k in n.outboundMap) && k != n.okey(chSrc[ref(from)], n.boundOf(from)) ==>
+//@            atlock(k in n.outboundMap) && n.outboundMap[k] == atlock(n.outboundMap[k])
+
+// Inbound translation in NAPT mode (C03).
+//@ func (n *networkAddressTranslator) translateInbound(from Chunk) (to Chunk, err error)
+//@   requires from != nil && n.natType.Mode == NATModeNormal && n.natType.FilteringBehavior <= EndpointAddrPortDependent
+//@   modifies clock, tLook, chDst, chDstIP
+//@   ghost after Now#1: tLook = clock
+//@   ensures [udponly] chNet[ref(from)] != "udp" ==> to == nil && err == errNonUDPTranslationNotSupported
+//@   ensures [admit] chNet[ref(from)] == "udp" ==> (to != nil) == (atlock(n.ikey(chDst[ref(from)]) in n.inboundMap) &&
+//@            !(tLook > atlock(n.inboundMap[n.ikey(chDst[ref(from)])].expires)) &&
+//@            atlock(n.fkeyIn(from) in n.inboundMap[n.ikey(chDst[ref(from)])].filters))
+//@   ensures [owner] to != nil ==> err == nil && chDst[ref(to)] == atlock(n.inboundMap[n.ikey(chDst[ref(from)])].local) &&
+//@            chSrc[ref(to)] == chSrc[ref(from)] && chData[ref(to)] == chData[ref(from)]
+//@   ensures [drop] to == nil ==> err != nil
+//@   ensures [norefresh] forall m *mapping :: {m.expires} m.expires == atlock(m.expires) && m.filters == atlock(m.filters)
+//@   ensures [nopermission] forall m *mapping, k string :: {k in m.filters} (k in m.filters) == atlock(k in m.filters)
+//@   ensures [nomapping] (forall k string :: {k in n.outboundMap} (k in n.outboundMap) ==> atlock(k in n.outboundMap) && n.outboundMap[k] == atlock(n.outboundMap[k])) &&
+//@            (forall k string :: {k in n.inboundMap} (k in n.inboundMap) ==> atlock(k in n.inboundMap) && n.inboundMap[k] == atlock(n.inboundMap[k])) &&
+//@            n.udpPortCounter == atlock(n.udpPortCounter)
 
 // ---- UDP sockets: read deadline (C10)
 //@ pure isTimeout(err error) bool = typeis(err, *net.OpError) && typeis(ptr(err, *net.OpError).Err, *timeoutError)
@@ -143,5 +287,7 @@ package vnet
 //@ global macAddrCounter atomic
 //@ lockset C19: Router, Net, udpConnMap, chunkQueue, networkAddressTranslator, mapping, UDPConn, TokenBucketFilter, DelayFilter, LossFilter
 
+//@ property C02: networkAddressTranslator.translateOutbound, networkAddressTranslator.findOutboundMapping, networkAddressTranslator.allocUDPPort, networkAddressTranslator.removeMapping
+//@ property C03: networkAddressTranslator.translateInbound, networkAddressTranslator.removeMapping
 //@ property C10: UDPConn.ReadFrom, UDPConn.Read, UDPConn.SetReadDeadline, UDPConn.SetDeadline
 //@ property C16: NewLossFilter, LossFilter.onInboundChunk
